@@ -12,6 +12,7 @@ and hands the bytes to the `c40` driver, which evaluates `isCanonicalBytes` — 
 library's own read primitives.
 -/
 import AlgoVerif.Lemmas.Msgpack
+import AlgoVerif.Lemmas.MsgpackOrder
 namespace Props.C40
 open AlgoVerif.Msgpack
 
@@ -84,6 +85,36 @@ theorem noncanonical_rejected (bs : Bytes) (v : V) (r : Bytes) (hd : dec bs = so
     · exact absurd rfl h
     · simp only [Canon] at h; simp [h]
     · simp [h]
+
+/-! ### the canonical key order (what "sorted map keys" means, and that it is the order the Go sorters use) -/
+
+/-- a canonical map has no duplicate keys -/
+theorem canon_map_keys_nodup (kvs : List (V × V)) (h : Canon (.map kvs)) : (kvs.map Prod.fst).Nodup := by
+  unfold Canon canonB at h
+  simp only [Bool.and_eq_true, sortedB] at h
+  exact sortedKeys_nodup _ h.2.1
+
+/-- string keys (struct field names, `map[string]T`): ordered by content — Go's string `<` -/
+theorem key_order_str (a b : Bytes) : keyLt (.str a) (.str b) = lexLt a b := keyLt_str a b
+
+/-- unsigned keys (`map[uint64]T`, `map[AssetIndex]T`, …): the order of the ENCODED keys is numeric order, i.e. what
+msgp's `SortUint64`-style sorters and go-codec's `uintRvSlice` both produce -/
+theorem key_order_uint (a b : Nat) (ha : a < 2^64) (hb : b < 2^64) : keyLt (.uint a) (.uint b) = decide (a < b) :=
+  keyLt_uint a b (by simpa using ha) (by simpa using hb)
+
+/-- fixed-size byte keys (`map[Address]T`): ordered by content (`bytes.Compare`) -/
+theorem key_order_bin (a b : Bytes) (h : a.length = b.length) : keyLt (.bin a) (.bin b) = lexLt a b := keyLt_bin a b h
+
+example : keyLt (.uint 127) (.uint 128) = true ∧ keyLt (.uint 65536) (.uint 65535) = false := by decide
+example : (2:Nat)^64 = 18446744073709551616 := by decide
+
+/-- Struct keys (`map[proposalValue]T`, agreement crash-recovery state only — outside the property): go-codec orders them
+by their ENCODING (fields in name order: dig, encdig, oper, oprop), the generated code by `SortProposalValue` (oper first).
+For a = {dig: 09, oper: 1}, b = {dig: 01, oper: 2} the canonical (go-codec) order puts b first although a.oper < b.oper:
+the two encoders emit such a map differently (informational stream `structkeys` of the check). -/
+def exKeyA : V := .map [(.str [0x64, 0x69, 0x67], .bin [9]), (.str [0x6f, 0x70, 0x65, 0x72], .uint 1)]
+def exKeyB : V := .map [(.str [0x64, 0x69, 0x67], .bin [1]), (.str [0x6f, 0x70, 0x65, 0x72], .uint 2)]
+example : keyLt exKeyB exKeyA = true ∧ keyLt exKeyA exKeyB = false := by decide
 
 -- non-vacuity: a transaction-like canonical tree, its bytes, and three non-canonical variants
 def exTree : V := .map [(.str [0x61], .uint 5), (.str [0x62], .arr [.int (-33), .bin [1, 2], .nil])]
